@@ -39,7 +39,7 @@ def describe(fline):
     return {"ndim": nd, "dims": dims, "coords": coords, "rows": rows[:400], "nrows": nr, "smoothing": sm, "penalty_order": po}
 
 def run(ctx):
-    ctx.audit(extra_props=("C09b",))   # Props/C09b.lean: glam_eq_kron_1d_C09 (separate module: its proof uses Props/C17 and Props/C09)
+    ctx.audit(extra_props=("C09b",))   # Props/C09b.lean: glam_eq_kron_1d_C09, glam_eq_kron_C09 (separate module: the proofs use Props/C17 and Props/C09)
     plan = [("shipped", 26 if ctx.tier == "quick" else 140, 0), ("san", 8 if ctx.tier == "quick" else 30, 0)]
     evals = 0; nontriv = set(); dist = {}
     worst = {"residual_ratio": 0.0, "rel_coef_diff": 0.0, "repro_ratio_spline": 0.0, "repro_ratio_poly": 0.0, "variant_vs_base_rel": 0.0, "exact_repro_star": 0.0}
@@ -148,7 +148,9 @@ def run(ctx):
     ctx.assumptions += ["CHOLMOD / BLAS numerics are not modelled: the solve is judged by the conditioning-free residual criterion ||M c - r||_inf <= %d*2^-24*(||M||_inf ||c||_inf + ||r||_inf) (what a backward-stable solve followed by rounding to float achieves)" % K_RES,
                         "OMP_NUM_THREADS=1, verbose=false; both the shipped-flags and the sanitizer build run orders 0..4 (the zero-length VLA that order 0 used to declare in divided_diffs, glam.c:366, was repaired under C13; on a tree without that repair the sanitizer build aborts and the check reports it)",
                         "reproduction tolerance at the data points: %d*2^-24*max(||c||_inf, max|z|)" % K_REPRO,
-                        "the n-d GLAM assembly identity (box / slicemultiply / reshape = Kronecker normal matrix) is tested per instance (exact equality in Rat), proved only in one dimension",
+                        "the n-d GLAM assembly identity (box / slicemultiply / reshape / Kronecker penalty chain = Kronecker normal equations) is a theorem about the model (glam_eq_kron_C09, any number of dimensions); glamM/glamR re-check it per instance (exact equality in Rat) as a regression test of the model",
+                        "positive definiteness: normal_matrix_posDef_iff / _of_full_rank give the reason (full column rank of the design matrix on the positively weighted data, or a penalty that sees the kernel); that a generated instance is well-posed is decided by exact elimination (all pivots > 0), whose success is proved to imply positive definiteness (specFit_certifies_posDef)",
+                        "polynomial reproduction is a theorem for every degree below the penalty order (poly_any_degree_below_penalty_reproduced: Marsden's identity; data inside the fully supported range, distinct knots - what the generator produces); the numerical reproduction test of the real fit remains",
                         "problems whose normal matrix is not positive definite (a pivot <= 0 in exact elimination) are skipped"]
 
 def replay(ctx, path):
